@@ -2,9 +2,10 @@
 (* Case space, design-level check and case export for C14; the value classes, *)
 (* Expected and Holds are in BearerDefs.                                      *)
 (* The case space is a union of products: the CORE product (every dimension   *)
-(* crossed with every other on its basic classes) and four SLICES that cross  *)
-(* the finer classes of one dimension (time, header, scope lists, challenge)  *)
-(* with the classes of the other dimensions the decision can interact with.   *)
+(* crossed with every other on its basic classes) and five SLICES that cross  *)
+(* the finer classes of one dimension (time, header, scope lists, challenge,  *)
+(* duration of the verifier call) with the classes of the other dimensions    *)
+(* the decision can interact with.                                            *)
 EXTENDS BearerDefs
 
 \* every dimension against every other, on the basic classes
@@ -13,7 +14,7 @@ Core ==
       h \in HdrCore, v \in Verifiers, r \in Required, g \in Granted, gf \in {"exact", "dup"}, e \in ExpCore, s \in SkewCore,
       a \in BOOLEAN, u \in UrlCore, o \in {"nil", "set"} }
 InCore(c) == /\ c.hdr \in HdrCore /\ c.rform = "exact" /\ c.gform \in {"exact", "dup"}
-             /\ c.exp \in ExpCore /\ c.skew \in SkewCore /\ c.url \in UrlCore
+             /\ c.exp \in ExpCore /\ c.skew \in SkewCore /\ c.url \in UrlCore /\ c.dur = "0"
 \* all expiration classes x all skew classes, against what the expiry decision can interact with:
 \* a refused header, a refusing verifier, missing scopes (403 and 401 both mandated), AllowMissingExpiration
 TimeSlice ==
@@ -35,6 +36,17 @@ ChalSlice ==
   { Rec(h, v, r, rf, g, "exact", e, "0", FALSE, u, "set") :
       h \in {"absent", "bearer"}, v \in {"ok", "invalid", "oauth"}, r \in Required, rf \in RForms, g \in {{}, {"a", "b"}},
       e \in {"m1", "p1"}, u \in UrlForms }
+\* time passes during verification: the verifier takes a duration d > 0 (seconds; the remaining life of the token -1 ns,
+\* exactly, +1 ns; the life plus seconds), so that a presentation has two instants, arrival and decision.  Against a token
+\* that is expired on arrival by 1 ns / by hours, at the boundary, has 1 ns / hours left or has no expiration; without
+\* skew, with a positive and with a negative one; in five contexts: admitted if unexpired (no scopes; scopes granted,
+\* another spelling of the scheme), a scope missing (403 and possibly 401), a verifier that fails after it took its time,
+\* a header that is refused before the verifier is called (no time passes).
+DurCtx == {<<"bearer", "ok", {}, {}>>, <<"upper", "ok", {"a"}, {"a", "b"}>>, <<"bearer", "ok", {"a", "b"}, {"a"}>>,
+           <<"bearer", "other_info", {}, {}>>, <<"basic", "ok", {}, {}>>}
+DurSlice ==
+  { RecD(x[1], x[2], x[3], "exact", x[4], "exact", e, s, a, "none", "set", d) :
+      x \in DurCtx, e \in ExpCore, s \in {"0", "s", "negs"}, a \in BOOLEAN, d \in Durs \ {"0"} }
 
 \* The parts are made disjoint (a case is run once): a slice keeps what no earlier part has.
 V(S) == {c \in S : ValidCase(c)}
@@ -43,15 +55,23 @@ PTime == {c \in V(TimeSlice) : ~InCore(c)}
 PHdr == V(HdrSlice)
 PScope == {c \in V(ScopeSlice) : ~InCore(c)}
 PChal == {c \in V(ChalSlice) : ~InCore(c) /\ ~(c.hdr = "bearer" /\ c.ver = "ok" /\ c.url \in UrlCore)}   \* the latter are in ScopeSlice
-CaseParts == <<PCore, PTime, PHdr, PScope, PChal>>
-NCases == Cardinality(PCore) + Cardinality(PTime) + Cardinality(PHdr) + Cardinality(PScope) + Cardinality(PChal)
+PDur == V(DurSlice)    \* d > 0: in no other part
+NParts == 6
+CaseParts == <<PCore, PTime, PHdr, PScope, PChal, PDur>>
+NCases == Cardinality(PCore) + Cardinality(PTime) + Cardinality(PHdr) + Cardinality(PScope) + Cardinality(PChal) + Cardinality(PDur)
 \* nothing is lost and nothing is run twice
 PartsOK == /\ \A c \in V(TimeSlice) \cup V(ScopeSlice) \cup V(ChalSlice) : InCore(c) => c \in PCore
            /\ \A c \in V(ChalSlice) : c \in PChal \/ c \in PCore \/ c \in PScope
-           /\ \A i, j \in 2..5 : i < j => \A c \in CaseParts[j] : c \notin CaseParts[i]
-           /\ \A i \in 2..5 : \A c \in CaseParts[i] : ~InCore(c)
+           /\ \A i, j \in 2..NParts : i < j => \A c \in CaseParts[j] : c \notin CaseParts[i]
+           /\ \A i \in 2..NParts : \A c \in CaseParts[i] : ~InCore(c)
+           /\ \A i \in 1..5 : \A c \in CaseParts[i] : c.dur = "0"
 
-DesignOK == \A i \in 1..5 : \A c \in CaseParts[i] : Holds(c, Expected(c))
+\* Both presentations of every case: the first arrives at 0, the second when the first has been answered.  With an
+\* instantaneous verifier every instant of the case is the same one (Frozen), Holds reads its instants only through
+\* Inst, and the second presentation is the first again: it is evaluated on the duration slice only.
+Frozen == \A k \in 0..3 : Inst([dur |-> "0"], k) = Zero
+DesignOK == /\ \A i \in 1..NParts : \A c \in CaseParts[i] : Holds(c, ExpectedAt(c, 0))
+            /\ \A c \in PDur : Holds(c, ExpectedAt(c, Arr2(c)))
 \* vacuity witnesses
 SomeAdmitted == \E c \in PCore : Admit(c)
 SomeEach == \A st \in {400, 401, 403, 500} : \E c \in PCore : Expected(c).status = st
@@ -64,20 +84,47 @@ TimeOK == /\ \A s \in Skews : /\ \E c \in TimeSlice : c.skew = s /\ Expired(c)
 \* the unsettled header shapes are admitted by the code in some cases and refused in others
 UnsettledBoth == /\ \E c \in PHdr : Unsettled(c.hdr) /\ Expected(c).ran
                  /\ \E c \in PHdr : Unsettled(c.hdr) /\ Rest(c) /\ ~Expected(c).ran
+\* The duration slice is not degenerate.
+\*   Monotone      time does not run backwards: a token expired at an instant is expired at every later one (so the window
+\*                 that BearerDefs!Holds leaves open between its two halves is empty here)
+\*   DurRegions    the slice has tokens that are unexpired at arrival AND at the decision (admitted), that run out while
+\*                 the verifier is at work (unexpired at t0, expired at t1: refused), that are expired on arrival; the
+\*                 boundary classes fall on the two sides (1 ns left / at the boundary: in; 1 ns beyond: out); some case
+\*                 is admitted at the first presentation and refused at the second
+\*   EarlyClockRefuted   a middleware that reads the clock once on arrival, before it calls the verifier, does NOT satisfy
+\*                 Holds: on a token that runs out in flight it enters the handler at t1 with a token expired beyond the
+\*                 skew (the ONLY-IF half), and on nothing else does it differ
+Monotone == \A c \in PDur : \A k \in 0..2 : ExpiredAt(c, k) => ExpiredAt(c, k + 1)
+InFlight(c) == AdmitAt(c, 0) /\ ~UnexpiredAt(c, 1)
+DurRegions == /\ \E c \in PDur : AdmitAt(c, 0) /\ AdmitAt(c, 1) /\ ExpectedAt(c, 0).ran
+              /\ \A d \in {"secs", "Lp1", "long"}, s \in {"0", "s", "negs"} :
+                    \E c \in PDur : c.dur = d /\ c.skew = s /\ InFlight(c) /\ ~ExpectedAt(c, 0).ran
+              /\ \E c \in PDur : ExpiredAt(c, 0) /\ c.ver = "ok"
+              /\ \A c \in PDur : /\ c.dur \in {"Lm1", "L"} => ~ExpiredAt(c, 1)
+                                 /\ c.dur \in {"Lp1", "long"} => ExpiredAt(c, 1)
+              /\ \E c \in PDur : ExpectedAt(c, 0).ran /\ ~ExpectedAt(c, 1).ran
+              /\ \E c \in PDur : ExpectedAt(c, 0).ran /\ ExpectedAt(c, 1).ran
+EarlyClockRefuted == /\ \E c \in PDur : InFlight(c) /\ ~Holds(c, ExpectedEarly(c, 0))
+                     /\ \A c \in PDur : \A arr \in {0, Arr2(c)} :
+                           Holds(c, ExpectedEarly(c, arr)) <=> ~(AdmitAt(c, arr) /\ ~UnexpiredAt(c, arr + 1))
 
 \* late: the class's verdict on "Expiration + skew before now"; the harness uses it ONLY to check that the representative it
 \* drew lies in the class (exact integer arithmetic on the concrete values; a mismatch is a machinery error, not a verdict)
 \* part: which part of the case space the case belongs to (the slices are run on more representatives than the core)
-PartName == <<"core", "time", "hdr", "scope", "chal">>
+\* lateK: the same at the instants 0, d, 2d, 3d (d: the duration of a verifier call)
+PartName == <<"core", "time", "hdr", "scope", "chal", "dur">>
 CaseJson(c, p) == [part |-> p, hdr |-> c.hdr, ver |-> c.ver, req |-> SetToSeq(c.req), rform |-> c.rform, granted |-> SetToSeq(c.granted), gform |-> c.gform,
-                exp |-> c.exp, skew |-> c.skew, allow |-> c.allow, url |-> c.url, opts |-> c.opts, late |-> Expired(c)]
+                exp |-> c.exp, skew |-> c.skew, allow |-> c.allow, url |-> c.url, opts |-> c.opts, dur |-> c.dur, late |-> Expired(c),
+                lateK |-> [k \in 1..4 |-> ExpiredAt(c, k - 1)]]
 PartSeq(i) == SetToSeq({CaseJson(c, PartName[i]) : c \in CaseParts[i]})
-Export == ndJsonSerialize("cases.ndjson", PartSeq(1) \o PartSeq(2) \o PartSeq(3) \o PartSeq(4) \o PartSeq(5))
+Export == ndJsonSerialize("cases.ndjson", PartSeq(1) \o PartSeq(2) \o PartSeq(3) \o PartSeq(4) \o PartSeq(5) \o PartSeq(6))
 
 ASSUME PartsOK
+ASSUME Frozen
 ASSUME DesignOK
 ASSUME SomeAdmitted /\ SomeEach /\ TimeOK /\ UnsettledBoth
+ASSUME Monotone /\ DurRegions /\ EarlyClockRefuted
 ASSUME PrintT(ToJson([cases |-> NCases, core |-> Cardinality(PCore), time |-> Cardinality(PTime), hdr |-> Cardinality(PHdr),
-                      scope |-> Cardinality(PScope), chal |-> Cardinality(PChal)]))
+                      scope |-> Cardinality(PScope), chal |-> Cardinality(PChal), dur |-> Cardinality(PDur)]))
 ASSUME Export
 =============================================================================
